@@ -181,15 +181,16 @@ func vc12Seeds(dir string, rng *vh.Rng) ([]c12h.Seed, error) {
 	seeds := append(ps, bs...)
 	// every valid seed must parse, as the kind it was encoded with (the oldest layout is a prefix of the latest one,
 	// so an "oldest" encoding followed by nothing fails the latest parser and is taken by the oldest)
-	for i := range seeds {
-		c, err := ParseTransactionStatusMetaContainer(seeds[i].Data)
+	seeds = c12h.KeepSeeds(seeds, func(i int, s *c12h.Seed) error {
+		c, err := ParseTransactionStatusMetaContainer(s.Data)
 		if err != nil {
-			return nil, fmt.Errorf("seed %s does not parse: %v", seeds[i].Name, err)
+			return fmt.Errorf("does not parse: %v", err)
 		}
 		if !c.Ok() {
-			return nil, fmt.Errorf("seed %s: empty container", seeds[i].Name)
+			return fmt.Errorf("empty container")
 		}
-	}
+		return nil
+	})
 	return seeds, nil
 }
 
